@@ -56,6 +56,7 @@ func (m *CPU) Run(app risc.Application) (int, error) {
 	cycle := 0
 	for {
 		cycle++
+		m.ctx.VerifTick(0, cycle)
 		if m.ctx.Debug {
 			fmt.Printf("%d\n", int32(cycle))
 		}
@@ -83,6 +84,7 @@ func (m *CPU) Run(app risc.Application) (int, error) {
 		if flush {
 			for !m.writeUnit.isEmpty() || !m.writeBus.IsEmpty() {
 				cycle++
+				m.ctx.VerifTick(2, cycle)
 				m.writeUnit.cycle(m.ctx, m.writeBus)
 			}
 			m.flush(pc)
